@@ -196,6 +196,10 @@ func loadForModule(module string, pkgs []string) (*program, error) {
 		"container/list",
 		"container/heap",
 		"container/ring",
+		// the distributed lock the server uses when redis is configured (over a fake connection pool of the harness)
+		"github.com/go-redsync/redsync/v4",
+		"github.com/hashicorp/go-multierror",
+		"github.com/hashicorp/errwrap",
 	}
 	if module == "serverreal" {
 		// the real server/mongodb code on the driver model (engine/mongo.go): option builders and BSON constructors are executed
